@@ -776,6 +776,10 @@ pub fn agg_pool(cfg: &TableCfg, order_insensitive: bool, p: &str) -> Vec<String>
     pool.push(format!("AVG({}r * 2.0)", p));
     pool.push(format!("SUM(CASE WHEN {}n > 0 THEN 1 ELSE 0 END)", p));
     pool.push(format!("COUNT(*) + SUM({}n)", p));
+    // INT / INT stays INT (truncating): exact and inexact quotients in one group
+    pool.push(format!("SUM({}n / 2)", p));
+    pool.push(format!("MAX({}n / 4)", p));
+    pool.push(format!("MIN({}n / 3)", p));
     // arithmetic wrapped around numeric aggregates ("an arithmetic wrapper around an aggregate applied to that aggregate's value")
     for (agg, wrap) in [
         ("COUNT(*)", "+ 1"),
@@ -802,6 +806,9 @@ pub fn gen_having(rng: &mut Rng, cfg: &TableCfg, group_by: &[String], p: &str) -
         format!("COUNT(*) >= {}", rng.range(1, 3)),
         format!("COUNT(*) < {}", rng.range(2, 4)),
         format!("SUM({}n) > {}", p, c),
+        // upper bounds on a sum of values of both signs: a running sum may cross the bound and come back
+        format!("SUM({}n) < {}", p, c + 2),
+        format!("SUM({}n) <= {}", p, c),
         format!("MAX({}n) <= {}", p, c + 2),
         "COUNT(n) >= 1".to_owned(),
         format!("COUNT(*) >= 1 AND MIN({}n) < {}", p, c + 3),
